@@ -980,6 +980,40 @@ def _is_len(e):
 
 
 class _Normalise(ast.NodeTransformer):
+    def __init__(self, tree: Optional[ast.Module] = None):
+        # module-level dict literals with constant string keys (for `**{k: f(v) for k, v in TABLE.items()}` call arguments)
+        self.tables = {}
+        for st in (tree.body if tree is not None else []):
+            if isinstance(st, ast.Assign) and len(st.targets) == 1 and isinstance(st.targets[0], ast.Name) and isinstance(st.value, ast.Dict) and st.value.keys and all(isinstance(k, ast.Constant) and isinstance(k.value, str) for k in st.value.keys):
+                self.tables[st.targets[0].id] = st.value
+
+    def _expand_kwargs(self, node: ast.Call):
+        new = []
+        changed = False
+        for kw in node.keywords:
+            v = kw.value
+            if kw.arg is None and isinstance(v, ast.DictComp) and len(v.generators) == 1 and not v.generators[0].ifs:
+                g = v.generators[0]
+                it = g.iter
+                tbl = None
+                if isinstance(it, ast.Call) and isinstance(it.func, ast.Attribute) and it.func.attr == "items" and isinstance(it.func.value, ast.Name) and not it.args:
+                    tbl = self.tables.get(it.func.value.id)
+                if tbl is not None and isinstance(g.target, ast.Tuple) and len(g.target.elts) == 2 and all(isinstance(x, ast.Name) for x in g.target.elts) and isinstance(v.key, ast.Name) and v.key.id == g.target.elts[0].id:
+                    kname, vname = g.target.elts[0].id, g.target.elts[1].id
+                    for ck, cv in zip(tbl.keys, tbl.values):
+                        val = _Subst({vname: cv, kname: ck}).visit(copy.deepcopy(v.value))
+                        nk = ast.keyword(arg=ck.value, value=val)
+                        ast.copy_location(nk, kw.value)
+                        for y in ast.walk(nk):
+                            if not hasattr(y, "lineno"):
+                                ast.copy_location(y, kw.value)
+                        new.append(nk)
+                    changed = True
+                    continue
+            new.append(kw)
+        if changed:
+            node.keywords = new
+
     def visit_Compare(self, node):
         self.generic_visit(node)
         if len(node.ops) != 1:
@@ -1002,6 +1036,7 @@ class _Normalise(ast.NodeTransformer):
 
     def visit_Call(self, node):
         self.generic_visit(node)
+        self._expand_kwargs(node)
         # functools.partial(F, a, k=v)  ->  lambda *_a, **_k: F(a, *_a, k=v, **_k)
         if _dotted(node.func) in ("functools.partial", "partial") and node.args and not isinstance(node.args[0], ast.Starred) and _dotted(node.args[0]):
             call = ast.Call(func=node.args[0], args=list(node.args[1:]) + [ast.Starred(value=ast.Name(id="_a", ctx=ast.Load()), ctx=ast.Load())], keywords=list(node.keywords) + [ast.keyword(arg=None, value=ast.Name(id="_k", ctx=ast.Load()))])
@@ -1810,6 +1845,6 @@ def canonicalise(tree: ast.Module, modname: str, is_package: bool = False):
     tree = _SuppressToTry().visit(tree)
     tree = _OrDefault().visit(tree)
     tree = _AliasFold().visit(tree)
-    tree = _Normalise().visit(tree)
+    tree = _Normalise(tree).visit(tree)
     ast.fix_missing_locations(tree)
     return tree, notes
